@@ -129,6 +129,7 @@ package fifo
 //@   ensures g.aggregateErrors == aggerr
 //@ func groupFromJSON
 //@   serves C12
+//@   at entry 0 before assert[configuration-keys-are-the-documented-ones] jsonkey(groupJSON.Modifiers) == "modifiers" && jsonkey(groupJSON.Scope) == "scope" && jsonkey(groupJSON.AggregateErrors) == "aggregateErrors"
 //@   modifies fjErr, gjWantReq, gjWantRes, gjAddReq, gjAddRes
 //@   noframe
 //@   at entry 0 before set fjErr = false
